@@ -395,11 +395,22 @@ def ptype_name(frame):
 def llcp_work(arg):
     role, at, inputs = arg
     run = Run(PROP)
+    established = None
+    if isinstance(at, tuple):        # ('snep'|'handover', at): the peer has a
+        established, at = at         # data link connection open when it sends
     for cls, hexframe in inputs:
         frame = bytes.fromhex(hexframe)
-        s, out, p = peer_run(role, {at: [frame]}, brk_at=at + 6)
+        script = {at: [frame]}
+        if established == 'snep':
+            script[1] = [simpeer.hdr(4, 4, 33)]
+        elif established == 'handover':
+            script[1] = [simpeer.hdr(1, 4, 33) + bytes([6, 19])
+                         + b'urn:nfc:sn:handover']
+        if established:
+            cls = '%s@%s-connection' % (cls, established)
+        s, out, p = peer_run(role, script, brk_at=at + 6)
         bad = judge_peer(s, out)
-        key = ('llcp', role, at, hexframe)
+        key = ('llcp', role, established, at, hexframe)
         run.outcome(('llcp', cls, s.verdict, ptype_name(frame)))
         if not bad:
             run.ok(key)
@@ -409,7 +420,8 @@ def llcp_work(arg):
             if sig not in seen:
                 seen.add(sig)
                 run.fail(sig, dict(detail, part='llcp', role=role, at=at,
-                                   frame=hexframe), key)
+                                   established=established, frame=hexframe),
+                         key)
         if len(seen) > 1:
             run.evaluations -= len(seen) - 1
     run.count('llcp', len(inputs))
@@ -427,6 +439,22 @@ def llcp_units(tier):
                 units.append(('llcp', (role, at, chunk)))
     if tier != 'thorough':
         units.append(('llcp', ('target', 1, inputs[::40])))
+    # the same PDU grammar addressed to an *established* data link connection
+    # (the peer connected to the SNEP / handover server first)
+    from props import c11
+    tails = c11.tails()
+    tails = tails[::2] if tier == 'thorough' else tails[::9] + tails[-6:]
+    est = []
+    for dsap, svc in ((4, 'snep'), (16, 'handover')):
+        frames = []
+        for ssap in (33, 32, 0):
+            for ptype in range(16):
+                for t in tails:
+                    frames.append(('hdr+tail', (simpeer.hdr(dsap, ptype, ssap)
+                                                + t).hex()))
+        for role in roles:
+            for chunk in par.chunks(frames, 48):
+                units.append(('llcp', (role, (svc, 4), chunk)))
     return units
 
 
@@ -538,9 +566,9 @@ def replay(doc):
         s, ctx, net, obs = air_conversation(mutate, d['client'])
         bad = judge_stack(s, ctx, obs)
     elif part == 'llcp':
-        s, out, p = peer_run(d['role'], {d['at']: [bytes.fromhex(d['frame'])]},
-                             brk_at=d['at'] + 6)
-        bad = judge_peer(s, out)
+        at = (d['established'], d['at']) if d.get('established') else d['at']
+        res = llcp_work((d['role'], at, [('replay', d['frame'])]))
+        bad = sorted(res['failures'])
     else:
         return c07_more.replay(doc)
     print('replay:', [b[0] for b in bad])
